@@ -29,8 +29,10 @@ CHECKS = {
          'For Joliet configurations of the corpus TLC evaluates the jol: clauses of Volume.tla (sorting, path tables, sizes, escape sequence = level), ApiMatches for the Joliet tree and Dec_Tree_jol/Dec_Content_jol (decoded Joliet tree and contents equal the model jol tree; shared extents with ISO9660 links).', '4 C09', IMG_NOTE),
  'C13': ('model_checking', 'NameRules.tla legality + duplicate/illegal/too-deep refusals of the model, trace validation; name probes judged by TLC',
          'The model refuses duplicate, illegal and too deep names in every namespace; for every such refusal the real call must raise PyCdlibInvalidInput at the edit and change nothing; every projection must have unique names; accepted histories must master. Character-class name probes (Mangle.tla / C18 machinery) add the input-space side.', '4 C13', CORE_NOTE),
- 'C14': ('fault_enumeration', 'TLC enumerates one refused call per (action, reason) at every state of the bounded graph; differential replay judged by TLC',
+ 'C14': ('model_checking', 'TLC enumerates one refused call per (action, reason) at every state of the bounded graph; differential replay judged by TLC',
          'Every refusal reason of every mutator of the model (bad/duplicate name in first, second or third namespace, missing parent, wrong kind, not empty, no such namespace, wrong state) is placed at every state of the tour and in random behaviours; TLC judges that the projection is unchanged, that later steps conform, that write succeeds and that the bytes equal the run without the refused call.', '4 C14', CORE_NOTE),
+ 'C17': ('model_checking', 'ModifyInPlace action of the TLA+ model; TLC-generated behaviours (reopen, modify, repeat; DirPack boundary directories); byte classification of the backing file and backing-file view judged by TLC',
+         'The model accepts modify_file_in_place iff the target is a file with data whose sector count does not change (and nothing is pending); TLC-generated behaviours are replayed; the bytes of the backing file before/after are classified by the independent decoders (data of the target, directory records pointing at it, its UDF file entries, VD size fields, other) and TLC judges InPlaceTouchesOnly / RefusedInPlaceChangedFile; the backing file itself is opened in a fresh object, decoded independently and judged against the model state and the Volume/Layout clauses.', '4 C17', IMG_NOTE),
 }
 AGENT = {
  'C08': ('model_checking', 'SuspPlacement.tla case-space enumeration by TLC -> witnesses replayed on pycdlib -> independent SUSP/RRIP decoder -> Susp.tla clauses judged by TLC', '4 C08'),
